@@ -55,16 +55,21 @@ for pid in sorted(props):
     out.append('')
 sec5 = '\n'.join(out)
 
+def short(t, n=230):
+    t = t.replace('|', '/').replace('\n', ' ')
+    return t if len(t) <= n else t[:n].rsplit(' ', 1)[0] + ' …'
+
 rows = []
 for m in sorted(glob.glob(os.path.join(V, 'seeded/*/meta.json'))):
     d = json.load(open(m))
-    rows.append('| %s | %s | %s | %s | %s |' % (os.path.basename(os.path.dirname(m)), d.get('property', ''), d.get('summary', '').replace('|', '/'),
-                                           d.get('needs', '').replace('|', '/'), d.get('detected_by', d.get('detection', '')) + (' (first evaluation: NOT DETECTED; ' + d.get('strengthened', 'checks strengthened afterwards') + ')' if 'NOT DETECTED' in d.get('history', []) and d.get('detected_by') != 'NOT DETECTED' else '')))
+    rows.append('| %s | %s | %s | %s | %s |' % (os.path.basename(os.path.dirname(m)), d.get('property', ''), short(d.get('summary', '')),
+                                           short(d.get('needs', '')), d.get('detected_by', d.get('detection', '')) + (' (first evaluation: NOT DETECTED; ' + d.get('strengthened', 'checks strengthened afterwards') + ')' if 'NOT DETECTED' in d.get('history', []) and d.get('detected_by') != 'NOT DETECTED' else '')))
 sec9 = ''
 if rows:
     sec9 = ('Changes written by independent sub-agents that saw only the property text and a scratch worktree;\n'
             'each compiles, passes the 594-test suite and comes with a demonstration that fails with it and passes without.\n'
             'Each was confirmed in a scratch worktree of /repo; the registered checks (same engine, harnesses and plan) were then run against that worktree with the change applied (VERIF_REPO), quick tier first, thorough if quick passed.\n\n'
+            '(Summaries are cut here; the full text, the patch and the demonstration are in seeded/<seed>/.)\n\n'
             '| seed | property | change | needs | detected by |\n|---|---|---|---|---|\n' + '\n'.join(rows) + '\n')
 else:
     sec9 = '(no seeded change recorded yet)\n'
